@@ -462,7 +462,7 @@ _ADDED6 = {
     "C17": "Marshaler histories also present a peer with a heads message it marshalled itself in the period before its last rotation (accepted during the grace period).",
     "C18": "Round trips also read every frame of a type into the same destination object (the usual receive loop), with frames of length zero after longer ones. `TestVerif_C18_FullPair`: the full writer / reader pair over a packet transport, messages up to exactly the limit. Round trips interleave writes of messages that cannot be encoded (they fail and must leave nothing on the stream).",
     "C19": "Odd groups (validly signed invitations with secrets of unusual length) joined and then used by the other requests.",
-    "C20": "An older backup refused into an existing account followed by the current export. The genuine archive reaches the restore through readers that split it arbitrarily (half reads, 4096-byte pieces, single bytes). Three quarters of the histories hold one message that makes a log entry of 300 KiB or of more than 1 MiB.",
+    "C20": "An older backup refused into an existing account followed by the current export. The genuine archive reaches the restore through readers that split it arbitrarily (half reads, 4096-byte pieces, single bytes). Three quarters of the histories hold one message that makes a log entry of 300 KiB or of more than 1 MiB. Mutant without both key files.",
 }
 for _k, _v in _ADDED6.items():
     CHECKS[_k]["level_text"] += " " + _v
